@@ -245,6 +245,9 @@ func (e *Eng) runOnce(loopMods map[int]map[string]bool) map[int]map[string]bool 
 			}
 		}
 	}
+	if _, used := e.heapNames["G|holds_objectlock"]; used {
+		e.hstore(st, "G|holds_objectlock", nil, types.Typ[types.Bool], T("false"))
+	}
 	if _, used := e.heapNames["G|holds_globallock"]; used {
 		// a function is entered with no package-level lock held (a caller that holds one across a call of a
 		// function declared `blocks` fails its own obligation)
